@@ -8,8 +8,8 @@ from .common import WORK, MachineryError, dumps, sub_seed
 
 # trace spec -> (event kinds it consumes, header builder)
 PROJ = {
-    "TraceEvents": {"kinds": {"tickAll": ["funds", "fok"], "stepB": ["m", "t", "s", "funds", "mkts", "runs", "idxv", "iok", "exec"],
-                              "stepE": ["m", "t", "s", "mkts", "runs", "idxv", "iok", "exec"], "ret": ["batch"],
+    "TraceEvents": {"kinds": {"tickAll": ["funds", "fok"], "stepB": ["m", "t", "s", "funds", "mkts", "runs", "idxv", "iok", "idxh", "exec"],
+                              "stepE": ["m", "t", "s", "mkts", "runs", "idxv", "iok", "idxh", "exec"], "ret": ["batch"],
                               "acc": ["m", "t", "id", "obj", "buy", "mo", "px", "vol", "ttl", "mp", "p0", "run"],
                               "round": ["m", "t", "fills", "p0"], "abort": None}},
     "TraceClock": {"kinds": {"tickAllB": ["clocks"], "tick": ["m", "t", "idx"], "tickAll": ["clocks"],
